@@ -925,3 +925,98 @@ def io_sites(repo):
                 walk(ch, sc)
         walk(tree, [])
     return sorted(out)
+
+
+def asm_direct_cases(rng, n):
+    """(kind, yields, value) : one well-behaved operation; kind hs/cl/wr/rd; for rd the generator ends by
+    yielding the data value.  Includes reads that suspend on 1 (a read that has to write)."""
+    out = [('rd', [1], 77), ('rd', [0, 1, 1, 0], 42), ('rd', [1, 1, 1], 7), ('hs', [0, 1, 0], None),
+           ('cl', [1, 0], None), ('wr', [1, 1, 0], None), ('rd', [], 9), ('hs', [], None)]
+    for _ in range(n):
+        kind = rng.choice(['hs', 'cl', 'wr', 'rd', 'rd', 'rd'])
+        ys = [rng.choice([0, 1]) for _ in range(rng.choice([0, 1, 2, 3, 5, 9]))]
+        out.append((kind, ys, rng.choice([7, 42, 1000]) if kind == 'rd' else None))
+    return out
+
+
+def impl_asm_select(kind, ys, value):
+    """Drive ONE operation through the real AsyncStateMachine with a select()-like loop (write event
+    when wantsWriteEvent(), else read event).  The property: this is the generator run to completion:
+    next() is called len(ys)+1 times, completion is reported once, nothing else happens.
+    Returns None if so, else a description."""
+    from tlslite.integration.asyncstatemachine import AsyncStateMachine
+    calls = [0]
+
+    def gen():
+        for y in ys:
+            calls[0] += 1
+            yield y
+        calls[0] += 1
+        if kind == 'rd':
+            yield value
+
+    class Conn(object):
+        def readAsync(self, n):
+            return gen()
+
+        def closeAsync(self):
+            return gen()
+
+        def writeAsync(self, b):
+            return gen()
+
+    class M(AsyncStateMachine):
+        def __init__(self):
+            AsyncStateMachine.__init__(self)
+            self.tlsConnection = Conn()
+            self.ev = []
+
+        def outConnectEvent(self):
+            self.ev.append('connect')
+
+        def outCloseEvent(self):
+            self.ev.append('close')
+
+        def outReadEvent(self, b):
+            self.ev.append(('read', b))
+
+        def outWriteEvent(self):
+            self.ev.append('write-idle')
+    m = M()
+    want = {'hs': ['connect'], 'cl': ['close'], 'wr': [], 'rd': [('read', value)]}[kind]
+    try:
+        if kind == 'hs':
+            m.setHandshakeOp(gen())
+        elif kind == 'cl':
+            m.setCloseOp()
+        elif kind == 'wr':
+            m.setWriteOp(b'x')
+        else:
+            m.inReadEvent()
+        n_events = 0
+        while m.result is not None:
+            if n_events >= len(ys):
+                return 'operation not completed after %d events: still wantsRead/wantsWrite = %r/%r (next() called %d times, events %r)' % (
+                    n_events, m.wantsReadEvent(), m.wantsWriteEvent(), calls[0], m.ev)
+            if m.wantsReadEvent() is not (ys[n_events] == 0) or m.wantsWriteEvent() is not (ys[n_events] == 1):
+                return 'after %d events wantsRead/wantsWrite = %r/%r but the operation yielded %r' % (
+                    n_events, m.wantsReadEvent(), m.wantsWriteEvent(), ys[n_events])
+            before = calls[0]
+            if m.wantsWriteEvent():
+                m.inWriteEvent()
+            else:
+                m.inReadEvent()
+            n_events += 1
+            if calls[0] != before + 1:
+                return 'event %d (%s) did not resume the operation: next() called %d times instead of %d, events %r' % (
+                    n_events, 'write' if ys[n_events - 1] == 1 else 'read', calls[0], before + 1, m.ev)
+            if n_events > len(ys) + 3:
+                return 'operation not completed after %d events (next() called %d times, events %r)' % (
+                    n_events, calls[0], m.ev)
+    except Exception as e:  # noqa
+        return 'raised %s' % type(e).__name__
+    if calls[0] != len(ys) + 1:
+        return 'next() called %d times, expected %d' % (calls[0], len(ys) + 1)
+    if m.ev != want:
+        return 'events %r, expected %r' % (m.ev, want)
+    return None
